@@ -35,7 +35,7 @@ fn mask_dates(w: &[u8]) -> Vec<u8> {
 fn modelled(c: &Case) -> bool {
     // a dropped payload is modelled only in drain mode: chunked body, Drop as the first action
     let drops_ok = c.handlers.iter().enumerate().all(|(i, h)| {
-        !h.contains(&HAct::Drop) || (matches!(c.items.get(i), Some(Item::Chunked { .. })) && h.first() == Some(&HAct::Drop))
+        !h.contains(&HAct::Drop) || matches!(c.items.get(i), Some(Item::Chunked { .. }))
     });
     !c.items.contains(&Item::Bad) && !c.rounds.iter().any(|r| r.rst || r.wr.iter().any(|w| matches!(w, W::Z | W::E)) || r.fl.iter().any(|f| matches!(f, F::E))) && drops_ok
 }
@@ -361,7 +361,7 @@ fn body(rng: &mut Rng) -> RespBody {
 }
 
 fn gen_wake(rng: &mut Rng) -> Case {
-    let kind = rng.below(14);
+    let kind = rng.below(15);
     let wbs = *rng.pick(&[64usize, 4096, 32768]);
     let mut items = vec![];
     let mut handlers = vec![];
@@ -539,6 +539,22 @@ fn gen_wake(rng: &mut Rng) -> Case {
             for _ in 0..rng.range(0, 3) {
                 rounds.push(Round { add: 0, wr: vec![W::A(rng.range(1, 200) as usize), W::P], ..Default::default() });
             }
+        }
+        13 => {
+            // a Paused payload dropped late: the handler waits while the channel fills beyond its
+            // limit, then drops the payload unread and answers; a request behind it
+            name = "drop-late";
+            let b = *rng.pick(&[150_000usize, 260_000, 400_000, 600_000]);
+            let cs = *rng.pick(&[8192usize, 65_536, 1 << 20]);
+            items.push(Item::Chunked { h: CHUNKED_BASE + rng.below(20) as usize, b, cs });
+            handlers.push(vec![HAct::Wait, HAct::Drop, HAct::Respond(RespBody::None)]);
+            for _ in 0..rng.range(1, 3) {
+                items.push(Item::Req { h: 18, b: None });
+                handlers.push(vec![HAct::Respond(RespBody::None)]);
+            }
+            let total: usize = items.iter().map(|i| item_lens(i).map_or(0, |l| l.1)).sum();
+            rounds.push(Round { add: total, wr: vec![W::A(1 << 20); 3], ..Default::default() });
+            rounds.push(Round { add: 0, hw: true, wr: vec![W::A(1 << 20); 3], ..Default::default() });
         }
         _ => {
             // plain pipelines, everything in few rounds, EOF at the end
